@@ -6,17 +6,28 @@ from harness import execprops as P
 
 ID = 'C11'
 MASK = X.M_MEM | X.M_RESULTS
-TOL = F(1, 10 ** 6)
+TOL_FLOAT = F(1, 10 ** 6)
 ASSUMPTIONS = ['float near-ties of scores (relative difference below 1e-9) are not judged by the monitor; the model '
                'computes the score with the two float operations of the code; theorem C11_float_no_survivor_clearly_above '
                'shows a relative gap above 5*2^-53 can never be reordered by rounding, C11_float_gap_needed that a gap is needed']
 
 
+def dyadic(x):
+    """a value on which float addition and subtraction are exact at the magnitudes of a run"""
+    x = F(x)
+    d = x.denominator
+    return d & (d - 1) == 0 and d <= 2 ** 20 and abs(x) < 2 ** 20
+
+
 def monitor(run):
     r = run.r
+    exact = [True] * r['npools']      # every demand seen so far in the pool is dyadic: the pool's running total is exact
     for t, e in enumerate(run.trace):
         if e['err']:
             continue
+        for cid, d in e['demand'].items():
+            if d is not None and not dyadic(d):
+                exact[run.info[cid]['pool']] = False
         fails = [x for x in e['results'] if x['err']]
         ok_cids = {x['cid'] for x in e['results'] if not x['err']}
         for pi in range(r['npools']):
@@ -26,6 +37,9 @@ def monitor(run):
             usage = {cid: F(e['demand'][cid]) for cid in elig}
             score = {cid: usage[cid] * usage[cid] / F(run.info[cid]['ram']) for cid in elig}
             cap = F(e['pools'][pi]['max_ram'])
+            # float slack only where the pool's running total can carry rounding error; on dyadic demands the
+            # comparison `consumed <= capacity` is exact and so is this rule (an exact fit needs no further victim)
+            TOL = TOL_FLOAT if not (exact[pi] and dyadic(cap)) else 0
             victims = [x['cid'] for x in fails if x['pool'] == pi and x['cid'] not in own]
             for v in victims:
                 if v not in usage:
